@@ -55,3 +55,10 @@ Theorem C17_route_first_match : forall (H : Type) (rs : list (route H)) path h,
                   forall x, In x l1 -> matches path x = false.
 Proof. exact C17_proofs.route_first_match. Qed.
 Print Assumptions C17_route_first_match.
+
+(* tie to the code: the definition regenerated from ProxyHandler._handle_async (URL construction) computes Model.Proxy.upstream_url *)
+From NV Require Gen.PyGen Equiv.Equiv.
+Theorem C17_code_tie : forall c path query,
+  PyGen.gen_upstream_url (rstrip_slash (px_upstream c)) (px_prefix c) (px_strip c) path query = upstream_url c path query.
+Proof. exact Equiv.upstream_url_tie. Qed.
+Print Assumptions C17_code_tie.
